@@ -15,6 +15,7 @@ package main
 import (
 	"bytes"
 	"fmt"
+	"reflect"
 	"time"
 
 	libaudit "github.com/elastic/go-libaudit/v2"
@@ -65,6 +66,90 @@ func lifeCycle(t int) int {
 	return 3
 }
 
+// windowStored reads, for a ladder of maxInFlight values, what the constructor keeps as the size of the window. The
+// field is found by value, not by name: a Reassembler made with maxInFlight 7 and one made with 11 are walked through
+// reflection, and the int-kinded fields (at any depth below the struct) that hold 7 in the first and 11 in the second
+// are the ones followed. No such field: an empty list (nothing to state).
+func windowStored() [][2]int {
+	type path []int
+	var find func(v reflect.Value, depth int, cur path, out *[]path, want int64)
+	find = func(v reflect.Value, depth int, cur path, out *[]path, want int64) {
+		if depth > 4 {
+			return
+		}
+		for v.Kind() == reflect.Ptr || v.Kind() == reflect.Interface {
+			if v.IsNil() {
+				return
+			}
+			v = v.Elem()
+		}
+		if v.Kind() != reflect.Struct {
+			return
+		}
+		for i := 0; i < v.NumField(); i++ {
+			f := v.Field(i)
+			p := append(append(path{}, cur...), i)
+			switch f.Kind() {
+			case reflect.Int, reflect.Int64, reflect.Int32:
+				if f.Int() == want {
+					*out = append(*out, p)
+				}
+			case reflect.Ptr, reflect.Struct, reflect.Interface:
+				find(f, depth+1, p, out, want)
+			}
+		}
+	}
+	at := func(v reflect.Value, p path) (int64, bool) {
+		for _, i := range p {
+			for v.Kind() == reflect.Ptr || v.Kind() == reflect.Interface {
+				if v.IsNil() {
+					return 0, false
+				}
+				v = v.Elem()
+			}
+			if v.Kind() != reflect.Struct || i >= v.NumField() {
+				return 0, false
+			}
+			v = v.Field(i)
+		}
+		switch v.Kind() {
+		case reflect.Int, reflect.Int64, reflect.Int32:
+			return v.Int(), true
+		}
+		return 0, false
+	}
+	mk := func(n int) (reflect.Value, func()) {
+		r, err := libaudit.NewReassembler(n, time.Hour, &lifeStream{})
+		if err != nil {
+			fatal("NewReassembler(%d): %v", n, err)
+		}
+		return reflect.ValueOf(r), func() { r.Close() }
+	}
+	v7, c7 := mk(7)
+	defer c7()
+	v11, c11 := mk(11)
+	defer c11()
+	var p7 []path
+	find(v7, 0, nil, &p7, 7)
+	var fields []path
+	for _, p := range p7 {
+		if x, ok := at(v11, p); ok && x == 11 {
+			fields = append(fields, p)
+		}
+	}
+	var out [][2]int
+	for _, n := range []int{0, 1, 5, 255, 256, 4096, 65535, 65536, 65537, 131071, 131072, 131073, 200000, 1 << 18, 1<<20 + 1} {
+		v, cl := mk(n)
+		for _, p := range fields {
+			if x, ok := at(v, p); ok {
+				out = append(out, [2]int{n, int(x)})
+			}
+		}
+		cl()
+	}
+	return out
+}
+
 func genReasmFactsImpl() {
 	var life [65536]int
 	for t := 0; t < 65536; t++ {
@@ -86,6 +171,15 @@ func genReasmFactsImpl() {
 		fmt.Fprintf(&b, "(%d, %d, %d)", t, u, life[t])
 		n++
 		t = u + 1
+	}
+	b.WriteString("]\n")
+	b.WriteString("/-- (maxInFlight given to NewReassembler, what the new Reassembler keeps as the size of its window) -/\n")
+	b.WriteString("def windowStored : List (Nat × Nat) := [")
+	for i, w := range windowStored() {
+		if i > 0 {
+			b.WriteString(", ")
+		}
+		fmt.Fprintf(&b, "(%d, %d)", w[0], w[1])
 	}
 	b.WriteString("]\n")
 	b.WriteString("end LA.Gen.ReasmFacts\n")
